@@ -2086,3 +2086,31 @@ PROPS["C14"]["rule"] += (" Long-number shapes around the 64-bit significand over
     "sources, also Vec<Value> and BTreeMap<String, IgnoredAny>); a PANIC observation is a C14 verdict in all of them. Configuration fr (float_roundtrip and "
     "nothing else; added to quick and thorough) runs the NUMBER families only - these shapes, c01::long_seq and c01::exp_edge - since the number conversion is "
     "all the feature changes.")
+# ---- fourth round of seeded changes (branch wip-h3): generators / verdicts that were missing
+PROPS["C17"]["rule"] += (" Symmetry of == is a C17 verdict: ops mapeqh / mapeq evaluate a == b and b == a; when they differ the observation is "
+    "`?asymmetric:<a == b>:<b == a>` and the driver reports `C17 == of maps / values is not symmetric` with the reference-dictionary verdict (before, such a "
+    "case was dropped as undecodable). Tags subset-* / superset-* (c17::run_subsets, own generator state): strict subsets and supersets in BOTH orders - "
+    "{} / {a} / {a,b} and the results of remove, clear, retain on them (fixed, first); 600 (thorough 6000) maps of 1-7 keys with nested values against the "
+    "same history followed by 1-3 removals in every spelling (remove / remove_entry through the map or an occupied entry, swap_remove / shift_remove under "
+    "preserve_order, retain by key), retain-below, clear, or 1-3 extra keys (insert / extend / append), the other side optionally rebuilt in another "
+    "insertion order - as histories (mapeqh: verdict from the reference association list, equal iff same key set and equal values) and as Values at top "
+    "level and nested in [m], {k:m}, [1,{x:[null,m]}], {o:{a:1,m:m,z:true}} (mapeq: Spec.ValueEq.specEq); default and preserve_order.")
+PROPS["C02"]["rule"] += (" Tag tie:<place>:<kind>:<top|neg|nested> (c02::ties, float_roundtrip builds, op pv): C07's tie-neighbourhood literals as NUMBER members of "
+    "documents - for the midpoint above m x 2^e (exact decimal expansion by big-integer arithmetic): the expansion cut to 17, 18, 19, 20, 21, 22, 25, 30, 40, 80, "
+    "200, 400, 767, 768, 769 significant digits (just below the tie) and the cut plus one in its last digit (just above), the whole expansion and its successor, in "
+    "three spellings; at 2^-1075 (half the least subnormal: underflow), the two least subnormals, both sides of the least normal, the overflow threshold and its "
+    "predecessor (every cut), and at 60 (thorough 600) sampled doubles, a third of them subnormal / in the last binades (three cuts each); each literal at top level "
+    "and once more negative or nested in arrays / objects (seven shapes). Literals of more than 120 digits: the quick tier keeps the expansion, its successor and the "
+    "768-digit cuts at the two ends of the range, top level only (the driver's float_roundtrip model costs up to 0.7 s on such a case); thorough keeps all at the fixed "
+    "places and a tenth of the sampled ones. Verdict: the existing ones of pv (denotation; every number of the returned value against its literal, nearest-even).")
+PROPS["C02"]["rule"] += (" Op hist32 <cfg> <two|fld|seq> <str|slice|reader> <first> <second> (c02::hist32, every configuration; driver Drv/C02.lean): a HISTORY on one "
+    "serde_json::Deserializer - an f32 is requested from `first`, then a Value is read from the SAME Deserializer: `two` = f32::deserialize(&mut de) then "
+    "Value::deserialize(&mut de) until the input ends (a container `first` is not consumed by the failing request and is the first Value read); `fld` = a struct "
+    "{gain: Option<f32> via deserialize_with = f32::deserialize(d).ok(), payload: Value}; `seq` = [first, second] through a visitor that tolerates a failing "
+    "next_element::<f32>(). Nineteen first items (strings, null, true / false, numbers outside the f32 range, containers: the request fails; numbers: it succeeds - "
+    "control) x modes x sources x three fixed payloads, plus 600 (thorough 6000) random payloads (floats that tell f32 rounding from f64 rounding - 0.1, 16777217.0, "
+    "123456789.125, 1.2345678901234567e30, -2.5e-40, the f32 range ends, random doubles -, integers, strings, nested in arrays / objects), separators and reader "
+    "chunkings. Model: every Value read after the request is what Model.Machine (MachineAp / MachineRv per configuration) returns on that item's text ALONE from the same "
+    "kind of source (no state of the Deserializer outlives an item: do_deserialize_f32 clears single_precision on every return). Specification: Spec.Canon.expected of "
+    "the item's text, and every number of the value against its literal (Spec.Decimal / Spec.Ieee) - verdict `C02 after an f32 request on the same Deserializer`. "
+    "The outcome of the f32 request itself is echoed (spec-only part: C02 does not talk about it).")
